@@ -165,6 +165,13 @@ class Contract:
         self.raises_.append((label, exc, when, list(ensures), exact))
         return self
 
+    def callee_view(self, callee, ensures):
+        """At calls of the contracted function whose name ends with `callee` assume only the listed postconditions
+        (by label) of its contract. Assuming fewer facts is sound; it keeps quantified clauses the caller's argument
+        does not need out of every later query. Preconditions, frame and exceptional exits are used in full."""
+        self.__dict__.setdefault("callee_views", {})[callee] = set(ensures)
+        return self
+
     def modifies(self, *locs):
         self.modifies_.extend(locs)
         return self
